@@ -68,6 +68,7 @@ def c09_scripts(ctx):
     n = 700 if ctx.tier == "quick" else 6000
     sc = mixed_scripts(ctx, n, policy_p=0.7)
     sc += tfile_scripts(ctx, modes=("whole", "rand"))
+    sc += handover_scripts(ctx, 300 if ctx.tier == "quick" else 3000)
     return sc
 
 
@@ -117,6 +118,12 @@ def c09_oracle(sc, outs):
                 found.append(("error-not-sticky", "close changed in_status from ERROR to %s" % ins))
             if op == "close" and sticky["res"] == ERROR and outs_ != ERROR:
                 found.append(("error-not-sticky", "close changed out_status from ERROR to %s" % outs_))
+    # progress: a caller following the documented hand-over protocol never ends in a round that consumes nothing while
+    # unconsumed data remains on both sides
+    for held_in, held_out, stalled in cl.pump_ends(sc, outs):
+        if stalled and held_in > 0 and held_out > 0 and sticky["req"] is None and sticky["res"] is None:
+            found.append(("no-progress", "hand-over protocol stalled: DATA_OTHER on both sides with %d request and %d response bytes "
+                                         "unconsumed" % (held_in, held_out)))
     g, _ = cl.final_dump(sc, outs)
     if g:
         for d, key in (("req", "in_ctr"), ("res", "out_ctr")):
@@ -174,6 +181,14 @@ def handover_scripts(ctx, n):
         else:
             req = rng.choice((b"", b"GET /only HTTP/1.1\r\nHost: h\r\n\r\n"))
             resp2 = b"HTTP/1.1 200 OK\r\nContent-Length: 1\r\n\r\nA" * rng.randint(1, 3)
+        # the exchange may sit behind earlier, still unanswered requests on the same connection (pipelining) and be followed by one
+        if rng.random() < 0.3:
+            k = rng.randint(1, 2)
+            req = b"".join(b"GET /pre%d HTTP/1.1\r\nHost: h\r\n\r\n" % i for i in range(k)) + req
+            resp2 = b"".join(b"HTTP/1.1 200 OK\r\nContent-Length: %d\r\n\r\n" % i + b"x" * i for i in range(k)) + resp2
+            if rng.random() < 0.5:
+                req += b"GET /post HTTP/1.1\r\nHost: h\r\n\r\n"
+                resp2 += b"HTTP/1.1 200 OK\r\nContent-Length: 0\r\n\r\n"
         rp = traffic.chunkings(req, rng, rng.choice(("whole", "rand", "bytes", "whole")))
         sp = traffic.chunkings(resp2, rng, rng.choice(("whole", "rand", "bytes", "whole")))
         order = rng.random()
@@ -185,7 +200,7 @@ def handover_scripts(ctx, n):
             items = traffic.interleave(rp, sp, rng)
         cfg = rng.choice(("respdecomp=0", "respdecomp=0,autodestroy=1", "p=IDS,respdecomp=0", "respdecomp=0,maxtx=2"))
         pol = traffic.rand_policy(rng) if rng.random() < 0.25 else "-"
-        out.append(traffic.script(cfg, pol, items))
+        out.append(traffic.script(cfg, pol, items, op=rng.choice(("play", "pump"))))
     return out
 
 
@@ -205,7 +220,7 @@ def streams_of(sc):
     rq, rs = b"", b""
     for l in sc:
         t = l.split(" ")
-        if len(t) >= 3 and t[1] == "play":
+        if len(t) >= 3 and t[1] in ("play", "pump"):
             for it in t[2].split(","):
                 if it[0] == ">":
                     rq += cl.unhx(it[1:])
@@ -377,7 +392,9 @@ def hline(rng, name, value):
 def c11_case(rng):
     """returns (request bytes, expectation dict, trigger name)"""
     trig = rng.choice(("te+cl", "cl-twice", "cl-folded", "chunked-1.0", "cl-unparseable", "te-unsupported", "host-differs",
-                       "host-missing", "hostu-invalid", "hosth-invalid", "none"))
+                       "host-missing", "hostu-invalid", "hosth-invalid", "none", "res-te+cl", "res-cl-twice"))
+    if trig.startswith("res-"):
+        return c11_response_case(rng, trig)
     version = b"HTTP/1.1"
     method = rng.choice((b"POST", b"PUT", b"GET"))
     target = b"/p?x=1"
@@ -448,6 +465,29 @@ def c11_case(rng):
     return req, exp, trig
 
 
+def c11_response_case(rng, trig):
+    """the same ambiguities on the response side (htp_connp_RES_BODY_DETERMINE)"""
+    req = b"GET /r HTTP/1.1\r\nHost: www.example.com\r\n\r\n"
+    headers = []
+    if trig == "res-te+cl":
+        headers += [(b"Transfer-Encoding", rng.choice((b"chunked", b"Chunked", b"gzip, chunked", b"chunked ", b"  chunked,foo", b"identity,chunked",
+                                                       b"x chunked", b"CHUNKED"))),
+                    (b"Content-Length", rng.choice((b"3", b"0", b"100", b"14")))]
+        body = b"3\r\nabc\r\n0\r\n\r\n"
+        exp = {"set": F_SMUGGLING, "coding": None, "res_coding": CODING["CHUNKED"], "res_entity": 3}
+    else:
+        a = rng.choice((b"3", b"5"))
+        headers += [(b"Content-Length", a), (b"Content-Length", rng.choice((a, b"7", a + b" ")))]
+        body = b"abcdefgh"[:int(a)]
+        exp = {"set": F_SMUGGLING, "coding": None, "res_coding": CODING["IDENTITY"], "res_entity": None}
+    for _ in range(rng.randint(0, 3)):
+        headers.append((b"X-" + traffic.rand_token(rng, 1, 5), traffic.rand_value(rng)))
+    rng.shuffle(headers)
+    resp = rng.choice((b"HTTP/1.1", b"HTTP/1.1", b"HTTP/1.0")) + b" 200 OK\r\n" + b"".join(hline(rng, n, v) for n, v in headers) + b"\r\n" + body
+    exp["resp"] = resp
+    return req, exp, trig
+
+
 def c11_scripts(ctx):
     rng = ctx.rng
     n = 900 if ctx.tier == "quick" else 8000
@@ -456,6 +496,9 @@ def c11_scripts(ctx):
         req, exp, trig = c11_case(rng)
         mode = rng.choice(("whole", "whole", "bytes", "rand", ("cut", rng.randint(1, len(req) - 1))))
         items = [">" + traffic.hx(p) for p in traffic.chunkings(req, rng, mode)]
+        if exp.get("resp"):
+            rmode = rng.choice(("whole", "whole", "bytes", "rand", ("cut", rng.randint(1, len(exp["resp"]) - 1))))
+            items += ["<" + traffic.hx(p) for p in traffic.chunkings(exp["resp"], rng, rmode)]
         cfg = rng.choice(("respdecomp=0", "p=IDS,respdecomp=0", "p=APACHE_2,respdecomp=0", "p=IIS_7_5,respdecomp=0", "p=GENERIC,respdecomp=0"))
         out.append(traffic.script(cfg, "-", items))
         meta.append((exp, trig, req))
@@ -479,6 +522,12 @@ def make_c11_oracle(by_id):
                           "trigger %s: flags=%#x lack %#x; request %r" % (trig, flags, exp["set"] & ~flags, req[:120])))
         if exp["coding"] is not None and int(t["tc"]) != exp["coding"]:
             found.append(("coding:" + trig, "trigger %s: transfer coding %s, expected %d" % (trig, t["tc"], exp["coding"])))
+        if exp.get("res_coding") is not None and int(t["stc"]) != exp["res_coding"]:
+            found.append(("coding:" + trig, "trigger %s: response transfer coding %s, expected %d; response %r" % (
+                trig, t["stc"], exp["res_coding"], exp["resp"][:120])))
+        if exp.get("res_entity") is not None and int(t["sel"]) != exp["res_entity"]:
+            found.append(("framing:" + trig, "trigger %s: %s response body bytes delivered, the chunked coding carries %d" % (
+                trig, t["sel"], exp["res_entity"])))
         return found
     return oracle
 
